@@ -1,6 +1,7 @@
 import FstVerif.Proofs.EndToEnd
 import FstVerif.Proofs.Sink
 import FstVerif.Proofs.Crc
+import FstVerif.Proofs.Frontends
 /-
 C15 — construction is deterministic and independent of the API path. In the
 model the emitted bytes are *by construction* a function of (type, cache
@@ -57,6 +58,20 @@ theorem C15_extend_eq_single (s : BState) (calls : List (Key × Nat)) :
     | ok s' =>
       simp only [insertAll, h]
       exact ih s'
+
+/-- every map-like batch entry point (Builder::extend_iter / extend_stream, MapBuilder::
+extend_iter / extend_stream, Map::from_iter, Fst::from_iter_map) reaches exactly the state —
+hence emits exactly the bytes — of the single `insert` calls -/
+theorem C15_frontends_map (fe : FrontEnd)
+    (hfe : fe = .rawIter ∨ fe = .rawStream ∨ fe = .mapIter ∨ fe = .mapStream ∨ fe = .mapFromIter ∨ fe = .rawFromIterMap)
+    (s s' : BState) (kvs : KV) (h : insertAll s kvs = .ok s') :
+    fe.runBatch s kvs = (s', .ok ()) := frontends_map fe hfe s s' kvs h
+
+/-- the same for the set-like entry points and single `add` calls -/
+theorem C15_frontends_set (fe : FrontEnd)
+    (hfe : fe = .setIter ∨ fe = .setStream ∨ fe = .setFromIter ∨ fe = .rawFromIterSet)
+    (s s' : BState) (kvs : KV) (h : addAll s (kvs.map (·.1)) = .ok s') :
+    fe.runBatch s kvs = (s', .ok ()) := frontends_set fe hfe s s' kvs h
 
 /-- writing through ANY benign sink (short writes, Interrupted, prefill, buffered or
 not) yields the bytes of the in-memory build -/
